@@ -45,6 +45,13 @@ def boundary_values(m, rnd, extra=()):
     for _ in range(24):
         vs.add(rnd.randint(lo, hi))
         vs.add(rnd.randint(max(lo, m.min - 300), min(hi, m.max + 300)))
+    # every power of two (and its neighbours) between MIN and MAX: bit-flag style membership tests
+    for k in range(0, 127):
+        pw = 1 << k
+        if pw > m.max + 1:
+            break
+        if pw >= m.min - 1:
+            vs.update((pw - 1, pw, pw + 1))
     # regularly spaced enums: positions inside holes that continue the spacing of the neighbours
     sv = m.sorted_values
     diffs = sorted({b - a for a, b in zip(sv, sv[1:]) if b - a > 1})[:3]
@@ -324,7 +331,7 @@ def std_labels(out, m):
         out.label(k, v)
 
 
-def full_script(sc, k, m, cfg, rnd, n_hist=4, n_pairs=10, n_strings=24, limit=24, ref=False, sweep=True, value_filter=None):
+def full_script(sc, k, m, cfg, rnd, n_hist=4, n_pairs=10, n_strings=24, limit=24, ref=False, sweep=True, value_filter=None, ns_cap=60):
     """Moderate script over every item the configuration enables (used by the cross-configuration
     properties: C02, C09, C10, C16, C18). Lines are a pure function of (m, enabled items, rnd)."""
     idxs = pick_idxs(m, rnd, limit)
@@ -333,8 +340,13 @@ def full_script(sc, k, m, cfg, rnd, n_hist=4, n_pairs=10, n_strings=24, limit=24
     ns = boundary_values(m, rnd)
     if value_filter is not None:
         ns = [x for x in ns if value_filter(x)]
-    if len(ns) > 40:
-        ns = sorted(set(rnd.sample(ns, 40)) | {m.min, m.max})
+    if len(ns) > ns_cap:
+        # keep everything close to the enum (hole interiors, boundaries), sample the far-away values
+        near = [x for x in ns if m.min - 2 <= x <= m.max + 2]
+        if len(near) > ns_cap:
+            near = rnd.sample(near, ns_cap)
+        far = [x for x in ns if not (m.min - 2 <= x <= m.max + 2)]
+        ns = sorted(set(near) | set(rnd.sample(far, min(len(far), max(8, ns_cap // 3)))) | {m.min, m.max})
     sc_try_from(sc, k, m, cfg, ns, sweep=sweep)
     sc_str(sc, k, m, cfg, idxs)
     if E.enabled(cfg, "from_str") or E.enabled(cfg, "FromStr"):
